@@ -211,6 +211,9 @@ func runTunnels(prop string) {
 	if prop == "C04" || prop == "C07" {
 		m.Tap.OnFrame = append(m.Tap.OnFrame, ts.inspectData)
 	}
+	if prop == "C04" {
+		ts.watchICMPClose()
+	}
 	if prop == "C03" {
 		ts.OnOpen = ts.checkKey
 	}
